@@ -2,7 +2,7 @@
    This file contains only the property theorems; each is closed by an exact/apply of a
    lemma proved under GraphAlg/ and followed by Print Assumptions (+ non-vacuity Examples). *)
 From Coq Require Import List NArith Permutation.
-From HV Require Import GraphAlg.Model GraphAlg.PUf GraphAlg.PTopo.
+From HV Require Import GraphAlg.Model GraphAlg.PUf GraphAlg.PTopo GraphAlg.PSm.
 Import ListNotations.
 Open Scope N_scope.
 
@@ -96,3 +96,83 @@ Example C17_uf_nonvacuous :
   let m := uf_exec [] [UUnion 0 1; UUnion 2 0; UFind 1; UUnion 4 5] in
   snd (uf_same m 1 2) = true /\ snd (uf_same m 1 4) = false /\ uf_root m 1 = 2.
 Proof. vm_compute. repeat split. Qed.
+
+(* ---------------------------------------------------------------- SubgraphMerge *)
+
+(* SMInv (GraphAlg/PSm.v): the union-find's representative function f stays inside the keys; the
+   global order is a permutation of the keys and a topological order of the node-level
+   predecessors; every group occupies the contiguous range idx..idx+len with its representative
+   first; subgraph_preds holds exactly the quotient predecessors; the quotient graph is acyclic;
+   enemies is symmetric, over representatives and reflects the declared pairs; no group contains
+   an enemy pair.  It holds after new (on closed graphs): *)
+Theorem C17_sm_new_inv : forall keys np en s,
+  (forall x p, In x keys -> In p (np x) -> In p keys) ->
+  sm_new keys np en = NewOk s ->
+  SMInv (sort_dedup keys) np en s (fun x => x).
+Proof. exact sm_new_inv. Qed.
+Print Assumptions C17_sm_new_inv.
+
+Theorem C17_sm_new_cycle : forall keys np en c,
+  (forall x p, In x keys -> In p (np x) -> In p keys) ->
+  sm_new keys np en = NewCycle c -> is_cycle np c /\ incl c (sort_dedup keys).
+Proof. exact sm_new_cycle. Qed.
+Print Assumptions C17_sm_new_cycle.
+
+Theorem C17_sm_new_total : forall keys np en,
+  (forall x p, In x keys -> In p (np x) -> In p keys) ->
+  (forall a b, In (a, b) en -> a <> b) ->
+  sm_new keys np en <> NewFuel /\ sm_new keys np en <> NewPanic.
+Proof. exact sm_new_total. Qed.
+Print Assumptions C17_sm_new_total.
+
+(* FULL STATEMENTS of the try_merge clauses of C17 (kept visible; only parts are proved below):
+     preservation:  SMInv s f -> sm_try_merge s u v = ROk (s', b) -> exists f', SMInv s' f'
+                    (and never RPanic / RFuel on keys);
+     exactness:     sm_try_merge s u v = ROk (s', false)
+                      <-> f u <> f v /\ (enemy_conflict f en u v \/ would_cycle f np ks (f u) (f v)). *)
+Definition C17_sm_try_merge_exact_stmt : Prop :=
+  forall ks np en s f u v, SMInv ks np en s f -> In u ks -> In v ks ->
+    ((exists s', sm_try_merge s u v = ROk (s', false)) <->
+     f u <> f v /\ (enemy_conflict f en u v \/ would_cycle f np ks (f u) (f v))).
+Definition C17_sm_try_merge_preserves_stmt : Prop :=
+  forall ks np en s f u v, SMInv ks np en s f -> In u ks -> In v ks ->
+    exists s' b f', sm_try_merge s u v = ROk (s', b) /\ SMInv ks np en s' f'.
+
+(* PROVED PART (soundness of refusals + the unmerged branches preserve the invariant):
+   a false answer implies distinct groups and an enemy conflict or a cycle through the merged
+   group, and leaves the abstract state unchanged.
+   MISSING: (a) completeness of the window-pruned DFS (would_cycle -> false), (b) that a successful
+   merge re-establishes SMInv (window re-sort, idx/len/preds/enemies bookkeeping) and never panics.
+   Both are covered only by the correspondence check (SMInv_b and the independent refusal oracle
+   evaluated on every implementation output). *)
+Theorem C17_sm_try_merge_false_sound_partial : forall ks np en s f u0 v0 s',
+  SMInv ks np en s f ->
+  sm_try_merge s u0 v0 = ROk (s', false) ->
+  f u0 <> f v0 /\
+  (enemy_conflict f en u0 v0 \/ would_cycle f np ks (f u0) (f v0)) /\
+  SMInv ks np en s' f.
+Proof. exact sm_try_merge_false_sound. Qed.
+Print Assumptions C17_sm_try_merge_false_sound_partial.
+
+(* completeness for the enemy clause: a declared conflict is always refused *)
+Theorem C17_sm_try_merge_enemy_refused_partial : forall ks np en s f u0 v0,
+  SMInv ks np en s f -> enemy_conflict f en u0 v0 ->
+  exists s', sm_try_merge s u0 v0 = ROk (s', false) /\ SMInv ks np en s' f.
+Proof. exact sm_try_merge_enemy_refused. Qed.
+Print Assumptions C17_sm_try_merge_enemy_refused_partial.
+
+Theorem C17_sm_try_merge_same_group_partial : forall ks np en s f u0 v0,
+  SMInv ks np en s f -> f u0 = f v0 ->
+  exists s', sm_try_merge s u0 v0 = ROk (s', true) /\ SMInv ks np en s' f.
+Proof. exact sm_try_merge_same_group. Qed.
+Print Assumptions C17_sm_try_merge_same_group_partial.
+
+(* non-vacuity: the invariant's hypotheses are met by the diamond of the Rust unit test, and
+   the refusal theorem's hypothesis by its "D outside" step *)
+Example C17_sm_nonvacuous :
+  exists s s1 s2,
+    sm_new [0; 1; 2; 3; 4; 5] (preds_of [(1, [0]); (2, [1]); (3, [1]); (4, [2; 3]); (5, [4])]) [(0, 5)] = NewOk s /\
+    sm_try_merge s 1 2 = ROk (s1, true) /\
+    sm_try_merge s1 2 4 = ROk (s2, false) /\
+    sm_subgraphs s2 = ROk [[0]; [1; 2]; [3]; [4]; [5]].
+Proof. vm_compute. do 3 eexists. repeat split. Qed.
